@@ -286,7 +286,9 @@ def decide(rep, prog):
                       % (short(SEEN_COUNT), short(hi), short(lo)), function='parseQuery', file=fnf, sample={'truncated': True, 'count_field': [short(hi), short(lo)]})
             tgt = ('sub', SEEN_COUNT, cap)
             nominal = st.same(cnt_after, tgt) or (st.prove_le(cnt_after, tgt) and st.prove_le(tgt, cnt_after))
-            early = any(str(k).startswith('exit:') for k in st.tags) and not nominal
+            # (the drop loop left by `if (head == NULL) return/break;` instead of through its condition: the list ended)
+            early = (any(str(k).startswith('exit:') for k in st.tags)
+                     or (head == ZERO and any(str(k).startswith(('left-by-return:', 'left-by-break:')) for k in st.tags))) and not nominal
             if nominal:
                 nominal_seen[0] += 1
                 kept = head != ZERO
